@@ -6,12 +6,13 @@ use {crate::verif_hooks::RwLock, std::sync::Arc};
 
 use async_lsp::lsp_types::{
     notification, request, CompletionOptions, CompletionParams, CompletionResponse,
-    DidChangeTextDocumentParams, DidOpenTextDocumentParams, DocumentLink, DocumentLinkOptions,
-    DocumentLinkParams, DocumentSymbolParams, DocumentSymbolResponse, FoldingRange,
-    FoldingRangeParams, FoldingRangeProviderCapability, GotoDefinitionParams,
-    GotoDefinitionResponse, Hover, HoverParams, HoverProviderCapability, InitializeParams,
-    InitializeResult, InlayHint, InlayHintParams, Location, OneOf, PublishDiagnosticsParams,
-    ReferenceParams, ServerCapabilities, TextDocumentSyncCapability, TextDocumentSyncKind, Url,
+    DidChangeTextDocumentParams, DidCloseTextDocumentParams, DidOpenTextDocumentParams,
+    DocumentLink, DocumentLinkOptions, DocumentLinkParams, DocumentSymbolParams,
+    DocumentSymbolResponse, FoldingRange, FoldingRangeParams, FoldingRangeProviderCapability,
+    GotoDefinitionParams, GotoDefinitionResponse, Hover, HoverParams, HoverProviderCapability,
+    InitializeParams, InitializeResult, InlayHint, InlayHintParams, Location, OneOf,
+    PublishDiagnosticsParams, ReferenceParams, ServerCapabilities, TextDocumentSyncCapability,
+    TextDocumentSyncKind, Url,
 };
 use async_lsp::router::Router;
 use async_lsp::{ClientSocket, LanguageClient, LanguageServer, ResponseError};
@@ -46,7 +47,7 @@ impl Server {
             .notification::<notification::DidOpenTextDocument>(Self::did_open)
             .notification::<notification::DidChangeTextDocument>(Self::did_change)
             .notification::<notification::DidSaveTextDocument>(|_, _| ControlFlow::Continue(()))
-            .notification::<notification::DidCloseTextDocument>(|_, _| ControlFlow::Continue(()))
+            .notification::<notification::DidCloseTextDocument>(Self::did_close)
             .request::<request::DocumentSymbolRequest, _>(Self::document_symbol)
             .request::<request::GotoDefinition, _>(Self::definition)
             .request::<request::References, _>(Self::references)
@@ -266,6 +267,16 @@ impl LanguageServer for Server {
         ControlFlow::Continue(())
     }
 
+    fn did_close(&mut self, params: DidCloseTextDocumentParams) -> Self::NotifyResult {
+        let path = UrlExt::to_file_path(&params.text_document.uri);
+        let mut vfs = self.vfs.write().unwrap();
+        if let Some(file_id) = vfs.file_for_path(&path) {
+            // from now on the file on disk counts again
+            vfs.close_document(&file_id);
+        }
+        ControlFlow::Continue(())
+    }
+
     fn did_change(&mut self, params: DidChangeTextDocumentParams) -> Self::NotifyResult {
         if let Some(change) = params.content_changes.first() {
             self.set_file_content(&params.text_document.uri, &change.text);
@@ -278,7 +289,12 @@ impl LanguageServer for Server {
 impl Server {
     fn set_file_content(&mut self, uri: &Url, text: &str) {
         let path = UrlExt::to_file_path(uri);
-        let file_id = self.vfs.write().unwrap().assign_or_get_file_id(path);
+        let file_id = {
+            let mut vfs = self.vfs.write().unwrap();
+            let file_id = vfs.assign_or_get_file_id(path);
+            vfs.open_document(file_id, text);
+            file_id
+        };
         let text = Arc::from(text);
         // Writing an input waits until every running task has dropped its snapshot, and those
         // tasks take the vfs lock while holding one. So wait without the vfs lock; once the
